@@ -126,6 +126,8 @@ def decodeAt (data : Bytes) (i : Nat) : Except BErr (Node × Nat) :=
     if t = 255 then .error .notImplemented
     else do
       let (sl, next) ← getValueSlice data i
+      -- `cls.from_bytes`: a registered class without a no-argument constructor cannot be instantiated
+      if Gen.noDefaultCtor.contains (lookup t).name then throw .x690
       pure (⟨lookup t, t, sl⟩, next)
 
 def Node.content (data : Bytes) (n : Node) : Bytes := pySlice data n.slice.start n.slice.stop
